@@ -101,17 +101,51 @@ fn bitmap_of(members: &[usize]) -> RevocationBitmap {
   bm
 }
 
+thread_local! {
+  /// realisation of the case being run: bit 0 = a decoy bitmap service with the SAME fragment under a foreign DID is listed
+  /// first; bit 1 = the service lists another type before RevocationBitmap2022
+  static VARIANT: std::cell::Cell<usize> = const { std::cell::Cell::new(0) };
+}
+fn variant() -> usize {
+  VARIANT.with(|v| v.get())
+}
+
+/// a service whose bitmap answers differently for every index the harness asks about
+fn decoy_service() -> Service {
+  let mut bm = RevocationBitmap::new();
+  for cl in CLASSES.iter() {
+    bm.revoke(cl[0] ^ 1);
+    bm.revoke(cl[cl.len() - 1]);
+  }
+  for n in NEIGHBOURS {
+    bm.revoke(n);
+  }
+  bm.to_service(DIDUrl::parse(format!("did:example:decoy#{FRAG}")).unwrap()).unwrap()
+}
+
+fn typed(svc: Service) -> Result<Service, String> {
+  if variant() & 2 == 0 {
+    return Ok(svc);
+  }
+  let mut v = serde_json::to_value(&svc).map_err(|e| e.to_string())?;
+  v["type"] = json!(["CredentialRegistry", "RevocationBitmap2022"]);
+  serde_json::from_value(v).map_err(|e| format!("multi-type service rejected: {e}"))
+}
+
 fn build(kind: Kind, members: &[usize]) -> Result<Obj, String> {
   let bm = bitmap_of(members);
   match kind {
     Kind::Raw => Ok(Obj::Raw(bm)),
     Kind::Core => {
       let id = service_id(kind, &iota_did());
-      let svc = bm.to_service(id.clone()).map_err(|e| format!("to_service: {e}"))?;
+      let svc = typed(bm.to_service(id.clone()).map_err(|e| format!("to_service: {e}"))?)?;
       let mut doc = CoreDocument::builder(Object::new())
         .id(id.did().clone())
         .build()
         .map_err(|e| e.to_string())?;
+      if variant() & 1 == 1 {
+        doc.insert_service(decoy_service()).map_err(|e| e.to_string())?;
+      }
       // an unrelated second service must never be touched
       doc
         .insert_service(
@@ -126,8 +160,11 @@ fn build(kind: Kind, members: &[usize]) -> Result<Obj, String> {
     Kind::Iota => {
       let did = iota_did();
       let id = service_id(kind, &did);
-      let svc = bm.to_service(id).map_err(|e| format!("to_service: {e}"))?;
+      let svc = typed(bm.to_service(id).map_err(|e| format!("to_service: {e}"))?)?;
       let mut doc = IotaDocument::new_with_id(did);
+      if variant() & 1 == 1 {
+        doc.insert_service(decoy_service()).map_err(|e| e.to_string())?;
+      }
       doc.insert_service(svc).map_err(|e| e.to_string())?;
       Ok(Obj::Iota(Box::new(doc)))
     }
@@ -212,7 +249,8 @@ fn apply(obj: &mut Obj, kind: Kind, op: &Value, k: usize) -> Result<Value, Strin
       }
       // query by full id and by fragment alternately
       let frag = format!("#{FRAG}");
-      let q: String = if k % 2 == 0 { id.to_string() } else { frag };
+      // (a fragment-only query legitimately finds the FIRST service with that fragment: not used next to the decoy)
+      let q: String = if k % 2 == 0 || variant() & 1 == 1 { id.to_string() } else { frag };
       match obj {
         Obj::Raw(b) => {
           for ix in &indices {
@@ -370,6 +408,7 @@ fn replay_chunk(cases: &[Value], rep: &mut Report) {
       };
       let pre = classes_of(&case["pre"]);
       let post = classes_of(&case["post"]);
+      VARIANT.with(|v| v.set(ci / 2));
       let out = guarded(|| {
         let mut obj = build(kind, &pre)?;
         let res = apply(&mut obj, kind, op, ci)?;
@@ -386,7 +425,7 @@ fn replay_chunk(cases: &[Value], rep: &mut Report) {
         }
         Ok::<_, String>((res, memb))
       });
-      let ctx = json!({"case": case, "object": kname});
+      let ctx = json!({"case": case, "object": kname, "decoy_service_first": variant() & 1 == 1, "multi_type_service": variant() & 2 == 2});
       match out {
         Err(p) => rep.mismatch(&format!("revocation_bitmap/{name}/panic"), &ctx, json!("no panic"), json!(p), "panic"),
         Ok(Err(e)) => rep.mismatch(&format!("revocation_bitmap/{name}/error"), &ctx, case["res"].clone(), json!(e), "operation failed or broke a law"),
